@@ -20,7 +20,7 @@ ASSUMPTIONS = [
     "wiring is asserted up to relabelling of the new ancillas and up to re-pairing of herald inputs/outputs that carry the same photon number (amplitude-equivalent)",
 ]
 BOUNDS = {
-    "quick": "parents with 2..3 user modes and 0..1 earlier heralded sub-circuit (2 modes, any herald in/out, any position); added circuit of 2..3 modes with 0..2 heralds (all in/out mode tuples, both declaration orders, photon numbers (1,0)/(1,1)), optional loss element, optional inner heralded group (nesting), every placement incl. one past the end, both group flags",
+    "quick": "parents with 2..3 user modes and 0..1 earlier heralded sub-circuit (2 modes, any herald in/out, any position); added circuit of 2..3 modes with 0..2 heralds (all in/out mode tuples, both declaration orders, photon numbers (1,0)/(1,1)), optional loss element, optional inner heralded group (nesting; also added after the sub-circuit's own two heralds were declared, k = 3, 4), every placement incl. one past the end, both group flags",
     "thorough": "parents up to 4 user modes and up to 2 earlier sub-circuits; added circuits up to 4 modes",
 }
 OUTSIDE = "larger sizes; more than one loss element in the added circuit"
